@@ -69,7 +69,7 @@ class Ev:
         m = getattr(self, "ev_" + type(e).__name__, None)
         if m is None:
             raise Unsupported("expression %s" % type(e).__name__)
-        v = m(e, want) if type(e).__name__ in ("List", "Call", "Constant", "ListComp") else m(e)
+        v = m(e, want) if type(e).__name__ in ("List", "Call", "Constant", "ListComp", "Dict") else m(e)
         if want is not None and v.ty != want and v.ty.k != "tuple":
             v = self.it.coerce(v, want, self.st, e, self.frame, spec=self.spec)
         return v
@@ -405,6 +405,17 @@ class Ev:
             if exact is not None:
                 exact = z3.Store(exact, v.t, i)
         return self.lalloc(elty, z3.IntVal(len(vals)), inner, exact_idx=exact)
+
+    def ev_Dict(self, e, want=None):
+        if e.keys:
+            raise Unsupported("non-empty dict literal")
+        if want is None or want.k != "dict":
+            raise Unsupported("dict literal of unknown type")
+        kty = want.a[0]
+        e0 = self.ct.erase(Ty("list", (kty,)))
+        base = self.u.get_arr(self.st, "elt:" + e0, kty)
+        L = self.lalloc(kty, z3.IntVal(0), fresh("lit", base.sort().range()), exact_idx=z3.K(I, z3.IntVal(-1)))
+        return Val(L.t, Ty("dict", want.a))
 
     def ev_Tuple(self, e):
         vals = tuple(self.ev(x) for x in e.elts)
